@@ -66,3 +66,13 @@ Theorem C06_partition_finalize_failure_changes_nothing : forall p f d d',
   CtlPlane.pdep_finalize p f d = (CtlPlane.Failed, d') -> d' = d.
 Proof. exact Proofs.CtlPlane.pdep_finalize_failed_unchanged. Qed.
 Print Assumptions C06_partition_finalize_failure_changes_nothing.
+
+(* the blue-green control planes under a failing API call: whichever Patch of the scenario fails (the quantifier over f),
+   retrying the phase ends with the workload handed back as configured -- same statement as C05's, read for faults *)
+From RV Require Model.HandBack Corr.HandBack Proofs.HandBack.
+Theorem C06_bluegreen_handed_back_whatever_call_failed : forall k n steps (f : HandBack.fault) w0 errs w,
+  HandBack.fresh w0 = true ->
+  HandBack.scenario k n false (HandBack.PInit :: map HandBack.PUpgrade steps ++ [HandBack.PFinal]) f w0 = (errs, w) ->
+  Corr.HandBack.all_phases_done errs = true -> HandBack.handed_back k w0 w = true.
+Proof. exact Proofs.HandBack.handed_back_as_configured. Qed.
+Print Assumptions C06_bluegreen_handed_back_whatever_call_failed.
